@@ -511,6 +511,39 @@ def check_function(repo, fn: FuncInfo, descriptor_attrs: Optional[Dict[str, Set[
         key_has_self = ("param:" + selfname) in kroots if selfname else False
         desc = f"{kind} cache `{norm(cont)}` in {fn.qualname}"
         sites.append(Site(fn, "dict:" + kind, desc, n))
+        # a key that is a LOSSY function of a variable (x & mask, x % n, x // n, x >> k, x[:k], len(x), hash(x), x.lower() ...)
+        # identifies a class of inputs; if the cached value is computed from the variable itself, every other member of
+        # the class reads a value made for a different input
+        from .astutil import inline as _inl2, single_defs as _sdf2
+        sd2 = {k_: v_ for k_, v_ in _sdf2(fn.node).items()}
+        kx2 = _inl2(key, sd2)
+        # the value as stored: for `size = cache[slot] = f(x)` the value is f(x)
+        vx2 = _inl2(val, {k_: v_ for k_, v_ in sd2.items() if not any(isinstance(y, ast.Subscript) and norm(y.value) == norm(cont) for y in ast.walk(v_))})
+        lossy = []
+        for y in ast.walk(kx2):
+            if isinstance(y, ast.BinOp) and isinstance(y.op, (ast.BitAnd, ast.Mod, ast.FloorDiv, ast.RShift)):
+                lossy.append(y)
+            elif isinstance(y, ast.Subscript) and isinstance(y.slice, ast.Slice):
+                lossy.append(y)
+            elif isinstance(y, ast.Call) and ((isinstance(y.func, ast.Name) and y.func.id in ("len", "hash", "id", "abs", "round", "int")) or (isinstance(y.func, ast.Attribute) and y.func.attr in ("lower", "upper", "casefold", "strip", "lstrip", "rstrip"))):
+                lossy.append(y)
+        for L in lossy:
+            lnames = {z.id for z in ast.walk(L) if isinstance(z, ast.Name) and isinstance(z.ctx, ast.Load)} - {"len", "hash", "id", "abs", "round", "int"}
+            ltxt = norm(L)
+            # occurrences of those names in the value outside a copy of L
+            vtxt_nodes = [z for z in ast.walk(vx2) if isinstance(z, ast.Name) and z.id in lnames]
+            if not vtxt_nodes:
+                continue
+            inside = set()
+            for z in ast.walk(vx2):
+                if norm(z) == ltxt:
+                    inside |= {id(w) for w in ast.walk(z)}
+            free = [z for z in vtxt_nodes if id(z) not in inside]
+            # the full variable may also be part of the key elsewhere (a tuple key (x & m, x) is exact)
+            exact = any(isinstance(z, ast.Name) and z.id in lnames and not any(id(z) in {id(w) for w in ast.walk(L2)} for L2 in lossy) for z in ast.walk(kx2))
+            if free and not exact:
+                problems.append(Problem(fn, n, short(n), f"{desc}: the key `{norm(kx2)}` keeps only `{ltxt}` of `{sorted(lnames)[0]}`, but the cached value is computed from `{sorted(lnames)[0]}` itself - all inputs that agree on `{ltxt}` share one entry and get the value of whichever came first"))
+                break
         mode = ("identity" if kind == "instance" or key_has_self else False) if selfname else True
         classify_roots(vroots, kroots, mode, desc, n, short(n))
         for rd in reads:
